@@ -2,6 +2,7 @@ package lang
 
 import (
 	"fmt"
+	"sort"
 	"strconv"
 	"strings"
 )
@@ -226,8 +227,14 @@ func (v *Value) prettyStringInteral(rootValues []*Value, quote bool, checkCircul
 	case ValueObj:
 		var sb strings.Builder
 		sb.WriteByte('{')
-		index := 0
-		for key, value := range *v.Obj {
+		// print the keys in sorted order so the output is deterministic
+		keys := make([]string, 0, len(*v.Obj))
+		for key := range *v.Obj {
+			keys = append(keys, key)
+		}
+		sort.Strings(keys)
+		for index, key := range keys {
+			value := (*v.Obj)[key]
 			if index > 0 {
 				sb.WriteString(", ")
 			}
@@ -235,7 +242,6 @@ func (v *Value) prettyStringInteral(rootValues []*Value, quote bool, checkCircul
 			sb.WriteString("\"" + key + "\"")
 			sb.WriteString(": ")
 			sb.WriteString(value.Value.prettyStringInteral(append(rootValues, v), true, true))
-			index++
 		}
 		sb.WriteByte('}')
 		return sb.String()
